@@ -29,25 +29,39 @@ type rawCase struct {
 	Obs json.RawMessage `json:"obs"`
 }
 
+// Crashed describes a worker that died while running case At (index into the case list).
+type Crashed struct {
+	Shard   int
+	At      int
+	Note    string // first "fatal error:" / "panic:" line of the worker's output
+	Scratch string // the dead worker's scratch directory (journals live there)
+}
+
 // Sharded runs cases 0..n-1 (case i = fn(i)) in W re-exec'd worker processes (case i goes to
-// worker i mod W) and writes their case lines, in case order, to w. A worker that crashes or
-// is killed yields one extra case line {"in":{"kind":"worker",…},"obs":{"status":"crashed",…}}
-// naming the case it was running: a crash is an observation, not a harness failure.
+// worker i mod W) and writes their case lines to w. A worker that crashes or is killed yields
+// one extra case line for the case it was running — built by crash(c) if given, else
+// {"in":{"kind":"worker",…},"obs":{"status":"crashed",…}} — and the worker is restarted on
+// the rest of its share: a crash is an observation, not a harness failure.
 //
-// In a worker (VERIFH_SHARD=k/W) it runs the worker's share and writes each line, flushed, to
-// <scratch>/shard.jsonl.
-func Sharded(o *hx.Opts, w *lineio.Writer, prop string, n, W int, input func(i int) interface{}, fn func(i int) *lineio.Case) error {
+// In a worker (VERIFH_SHARD=k/W, VERIFH_START=first index) it runs the worker's share and
+// writes each line, flushed, to <scratch>/shard.jsonl.
+func Sharded(o *hx.Opts, w *lineio.Writer, prop string, n, W int, input func(i int) interface{},
+	fn func(i int) *lineio.Case, crash func(c Crashed) *lineio.Case) error {
 	if sh := os.Getenv("VERIFH_SHARD"); sh != "" {
 		var k, tot int
 		if _, err := fmt.Sscanf(sh, "%d/%d", &k, &tot); err != nil || tot < 1 {
 			return fmt.Errorf("bad VERIFH_SHARD %q", sh)
 		}
-		f, err := os.Create(filepath.Join(o.Scratch, "shard.jsonl"))
+		first := k
+		if v, err := strconv.Atoi(os.Getenv("VERIFH_START")); err == nil && v > first {
+			first = v
+		}
+		f, err := os.OpenFile(filepath.Join(o.Scratch, "shard.jsonl"), os.O_CREATE|os.O_WRONLY|os.O_APPEND, 0o644)
 		if err != nil {
 			return err
 		}
 		defer f.Close()
-		for i := k; i < n; i += tot {
+		for i := first; i < n; i += tot {
 			os.WriteFile(filepath.Join(o.Scratch, "progress"), []byte(strconv.Itoa(i)), 0o644)
 			c := fn(i)
 			b, err := json.Marshal(c)
@@ -76,88 +90,87 @@ func Sharded(o *hx.Opts, w *lineio.Writer, prop string, n, W int, input func(i i
 	}
 	ctx, cancel := context.WithTimeout(context.Background(), limit)
 	defer cancel()
-	type res struct {
-		err    error
-		stderr string
-	}
-	results := make([]res, W)
+	crashes := make([][]*lineio.Case, W)
 	var wg sync.WaitGroup
 	for k := 0; k < W; k++ {
 		k := k
 		out := filepath.Join(o.Scratch, fmt.Sprintf("w%d", k))
-		args := []string{prop, "-tier", o.Tier, "-seed", strconv.FormatInt(o.Seed, 10), "-out", out,
-			"-budget", strconv.Itoa(o.Budget)}
-		if o.Replay != "" {
-			args = append(args, "-replay", o.Replay)
-		}
-		cmd := exec.CommandContext(ctx, os.Args[0], args...)
-		cmd.Env = append(os.Environ(), fmt.Sprintf("VERIFH_SHARD=%d/%d", k, W))
-		var eb bytes.Buffer
-		cmd.Stderr = &eb
-		cmd.Stdout = &eb
+		scratch := filepath.Join(out, "scratch")
 		wg.Add(1)
 		go func() {
 			defer wg.Done()
-			err := cmd.Run()
-			s := eb.String()
-			if len(s) > 6000 {
-				s = s[:3000] + "\n…\n" + s[len(s)-3000:]
+			start := k
+			for restarts := 0; restarts <= 40 && start < n; restarts++ {
+				args := []string{prop, "-tier", o.Tier, "-seed", strconv.FormatInt(o.Seed, 10), "-out", out,
+					"-budget", strconv.Itoa(o.Budget)}
+				if o.Replay != "" {
+					args = append(args, "-replay", o.Replay)
+				}
+				cmd := exec.CommandContext(ctx, os.Args[0], args...)
+				cmd.Env = append(os.Environ(), fmt.Sprintf("VERIFH_SHARD=%d/%d", k, W), fmt.Sprintf("VERIFH_START=%d", start))
+				var eb bytes.Buffer
+				cmd.Stderr = &eb
+				cmd.Stdout = &eb
+				os.Remove(filepath.Join(scratch, "progress"))
+				err := cmd.Run()
+				at := -2
+				if b, e := os.ReadFile(filepath.Join(scratch, "progress")); e == nil {
+					if strings.TrimSpace(string(b)) == "done" {
+						at = -1
+					} else if v, e := strconv.Atoi(strings.TrimSpace(string(b))); e == nil {
+						at = v
+					}
+				}
+				if err == nil && at == -1 {
+					return
+				}
+				note := firstPanicLine(eb.String())
+				if err != nil {
+					note = err.Error() + ": " + note
+				}
+				c := Crashed{Shard: k, At: at, Note: note, Scratch: scratch}
+				var cl *lineio.Case
+				if crash != nil && at >= 0 && at < n {
+					cl = crash(c)
+				}
+				if cl == nil {
+					var inp interface{}
+					if at >= 0 && at < n && input != nil {
+						inp = input(at)
+					}
+					cl = &lineio.Case{ID: fmt.Sprintf("%s-worker-%d-%d", prop, k, at),
+						In:  map[string]interface{}{"kind": "worker", "shard": k, "case": at, "input": inp},
+						Obs: map[string]interface{}{"status": "crashed", "note": note}}
+				}
+				crashes[k] = append(crashes[k], cl)
+				if at < 0 || ctx.Err() != nil {
+					return // died before its first case or ran out of time: do not loop
+				}
+				start = at + W
 			}
-			results[k] = res{err, s}
 		}()
 	}
 	wg.Wait()
-	// collect
-	lines := make([][]rawCase, W)
 	for k := 0; k < W; k++ {
 		f, err := os.Open(filepath.Join(o.Scratch, fmt.Sprintf("w%d", k), "scratch", "shard.jsonl"))
-		if err != nil {
-			continue
-		}
-		sc := bufio.NewScanner(f)
-		sc.Buffer(make([]byte, 1<<20), 1<<30)
-		for sc.Scan() {
-			var rc rawCase
-			if json.Unmarshal(sc.Bytes(), &rc) == nil && rc.In != nil {
-				lines[k] = append(lines[k], rc)
+		if err == nil {
+			sc := bufio.NewScanner(f)
+			sc.Buffer(make([]byte, 1<<20), 1<<30)
+			for sc.Scan() {
+				var rc rawCase
+				if json.Unmarshal(sc.Bytes(), &rc) == nil && rc.In != nil {
+					if err := w.Put(&lineio.Case{ID: rc.ID, In: rc.In, Obs: rc.Obs}); err != nil {
+						f.Close()
+						return err
+					}
+				}
 			}
+			f.Close()
 		}
-		f.Close()
-	}
-	pos := make([]int, W)
-	for i := 0; i < n; i++ {
-		k := i % W
-		if pos[k] < len(lines[k]) {
-			rc := lines[k][pos[k]]
-			pos[k]++
-			if err := w.Put(&lineio.Case{ID: rc.ID, In: rc.In, Obs: rc.Obs}); err != nil {
+		for _, c := range crashes[k] {
+			if err := w.Put(c); err != nil {
 				return err
 			}
-		}
-	}
-	for k := 0; k < W; k++ {
-		expect := (n - k + W - 1) / W
-		if results[k].err == nil && len(lines[k]) == expect {
-			continue
-		}
-		at := -1
-		if b, err := os.ReadFile(filepath.Join(o.Scratch, fmt.Sprintf("w%d", k), "scratch", "progress")); err == nil {
-			if v, err := strconv.Atoi(strings.TrimSpace(string(b))); err == nil {
-				at = v
-			}
-		}
-		note := firstPanicLine(results[k].stderr)
-		if results[k].err != nil {
-			note = results[k].err.Error() + ": " + note
-		}
-		var inp interface{}
-		if at >= 0 && at < n && input != nil {
-			inp = input(at)
-		}
-		if err := w.Put(&lineio.Case{ID: fmt.Sprintf("%s-worker-%d", prop, k),
-			In:  map[string]interface{}{"kind": "worker", "shard": k, "case": at, "input": inp},
-			Obs: map[string]interface{}{"status": "crashed", "note": note, "got": len(lines[k]), "expected": expect}}); err != nil {
-			return err
 		}
 	}
 	return nil
@@ -165,7 +178,7 @@ func Sharded(o *hx.Opts, w *lineio.Writer, prop string, n, W int, input func(i i
 
 func firstPanicLine(s string) string {
 	for _, l := range strings.Split(s, "\n") {
-		if strings.HasPrefix(l, "panic:") || strings.HasPrefix(l, "fatal error:") {
+		if strings.HasPrefix(l, "panic:") || strings.HasPrefix(l, "fatal error:") || strings.HasPrefix(l, "fatal:") {
 			return l
 		}
 	}
